@@ -90,13 +90,35 @@ def run_cases(wh, cases, tag):
         return out
     with ThreadPoolExecutor(shards) as ex:
         outs = list(ex.map(run_shard, range(shards)))
-    shutil.rmtree(base, ignore_errors=True)
     res, pos = [None] * len(cases), [0] * shards
     for i, c in enumerate(cases):
         k = i % shards
         res[i] = outs[k][pos[k]:pos[k] + len(c)]
         pos[k] += len(c)
+    # an instance that could not even be created (run directory vanished: something outside
+    # the engine) is tried once more, alone
+    for i, c in enumerate(cases):
+        if res[i] and res[i][0] != "ok":
+            out, rc, err = C.run_lines([wh, "engine", os.path.join(base, "retry")], c, timeout=600)
+            if len(out) == len(c):
+                res[i] = out
+    shutil.rmtree(base, ignore_errors=True)
     return res
+
+
+def drift_flags(driver, items):
+    """items: list of (hdr, ops up to the crash).  Would a restart at that point change block
+    ids (model predicate id_drift, coq/model/Engine.v)?  Evaluated by the extracted model."""
+    lines, idx = [], []
+    for hdr, ops in items:
+        lines.append("CASE d %s geom=small" % hdr)
+        lines += [o for o in ops if o.split()[0] in ("A", "B", "BN", "R", "BR", "C")]
+        lines.append("REOPEN")
+        idx.append(len(lines) - 1)
+    if not lines:
+        return []
+    out, rc, err = C.run_lines([driver, "engine"], lines, timeout=1800)
+    return [(j < len(out) and out[j].endswith("!drift")) for j in idx]
 
 
 def entries_of(line):
@@ -236,10 +258,19 @@ def run(ctx):
         broken.append(dict(kind="harness", what="acceptor run failed rc=%s %s" % (rc, err[-300:])))
         verdicts += ["<missing>"] * (len(acc_lines) - len(verdicts))
     rejected = 0
+    rej = [(wi, k) for (wi, k, t, cls, line), v in zip(acc_meta, verdicts) if v != "ok"]
+    died = {}
+    for (wi, k), lines, out in zip(meta, cases, res):
+        nops = len(workloads[wi][1])
+        died[(wi, k)] = next((j for j, o in enumerate(out[2:2 + nops]) if o == "died"), nops)
+    uniq = sorted(set(rej))
+    flags = dict(zip(uniq, drift_flags(driver, [(workloads[wi][0], workloads[wi][1][:died[(wi, k)] + 1]) for wi, k in uniq]))) if uniq else {}
     for (wi, k, t, cls, line), v in zip(acc_meta, verdicts):
         if v != "ok":
             rejected += 1
             hdr, ops, info, _ = workloads[wi]
+            if flags.get((wi, k)):
+                cls = cls + ["id-drift"]
             failures.append(dict(kind="acceptor", acceptor=cmdname, k=k, topic=t, classes=cls, judged=line, verdict=v,
                                  workload=dict(hdr=hdr, ops=ops, info=info),
                                  what="crash at I/O event %d: recovered state rejected by %s" % (k, cmdname)))
